@@ -128,7 +128,15 @@ class EngineProbe:
         self._orig_pc = _ev.ProcessContinuation.invoke
         self._orig_push = _eh.EventHeap._push_single
         orig_ev, orig_pc, orig_push = self._orig_ev, self._orig_pc, self._orig_push
-        clock_var = _sf._active_clock_var
+        clock_var = getattr(_sf, "_active_clock_var", None)
+        if clock_var is None:  # a tree that keeps the active context elsewhere: fall back to 'no clock known'
+            class _NoVar:
+                @staticmethod
+                def get(default=None):
+                    holder = getattr(_sf, "_active", None) or getattr(_sf, "_ACTIVE", None)
+                    return getattr(holder, "clock", None) if holder is not None else None
+
+            clock_var = _NoVar()
 
         def enter(event, is_cont):
             tl = probe._tl
